@@ -238,6 +238,27 @@ Section NodeMef.
       { unfold node_flow_cost. apply sumq_ext. intros v _. unfold xn. rewrite zof_nedge. reflexivity. }
       rewrite E1 in Hle. exact Hle.
   Qed.
+
+  (* every solution of the rows reads back as a node flow whose distance is at most the objective *)
+  Theorem node_mef_solution_is_node_flow (a : var -> Q) : node_mef_domain -> sat a (encode_mef I) ->
+    node_flow V E isint (fun v => xof a (nedge v)) /\ node_flow_cost V fq sc ign (fun v => xof a (nedge v)) <= objective a (encode_mef I).
+  Proof.
+    intros Hdom Hsat. destruct (domain_I Hdom) as (_ & _ & D3).
+    pose proof (mef_objective_lower_bound I a D3 Hsat) as Hlb. rewrite flow_cost_agree in Hlb.
+    pose proof (proj1 (mef_enc_exact I a) Hsat) as (Hb & Hc & _).
+    assert (Hnb : is_flow_nb I (xof a)).
+    { split; [|exact Hc]. intros e He. destruct (Hb e He) as ([H0 _] & _ & Hi). split; [exact H0|]. intros Hint. apply (Hi Hint). }
+    split; [exists (yn (xof a)); exact (expansion_flow_is_node_flow (xof a) Hnb)|exact Hlb].
+  Qed.
+
+  (* the few-flow-values second phase: any solution of the second model reads back as a node flow within the budget (1+eps)*opt *)
+  Theorem node_mef_few_values_within_budget (subset : list PathEnc.edge) (eps opt : Q) (nvals : nat) (a : var -> Q) : node_mef_domain ->
+    sat a (encode_mef2 I subset eps opt nvals) ->
+    node_flow V E isint (fun v => xof a (nedge v)) /\ node_flow_cost V fq sc ign (fun v => xof a (nedge v)) <= (1 + eps) * opt.
+  Proof.
+    intros Hdom Hsat. destruct (mef2_within_budget I subset eps opt nvals a Hsat) as [H1 H2].
+    destruct (node_mef_solution_is_node_flow a Hdom H1) as [F C]. split; [exact F|]. lra.
+  Qed.
 End NodeMef.
 
 (* ================================================================================================================= *)
